@@ -42,6 +42,49 @@ Proof.
   cbv [with_dl with_ul]. cbn [ul dl ea ia kenc kint]. rewrite !cnt_mask_id by assumption. reflexivity.
 Qed.
 
+(* ---- COUNT arithmetic of the reference peer (no algorithm involved) *)
+Lemma ul_next_lt c : ul_next c < 16777216.
+Proof. unfold ul_next. change COUNT_MOD with 16777216. lia. Qed.
+Lemma ul_count_for_lt c n : c < 16777216 -> ul_count_for c n < 16777216.
+Proof. intro H. unfold ul_count_for. destruct n; lia. Qed.
+
+Lemma dl_count_lt last h d : dl_count last h d < 16777216.
+Proof. unfold dl_count. change COUNT_MOD with 16777216. destruct (hdr_newctx h); lia. Qed.
+
+Lemma estimate_in_sync c : c < 16777216 -> estimate c (c mod 256) = c.
+Proof.
+  intro H. unfold estimate. change COUNT_MOD with 16777216.
+  destruct (N.ltb_spec (c mod 256) (c mod 256)); lia.
+Qed.
+
+(* no new context in between: message i (from 0) carries next + i mod 2^24 *)
+Lemma ul_counts_run : forall (news:list bool) next,
+  next < 16777216 -> Forall (fun b => b = false) news ->
+  ul_counts next news = map (fun i => (next + N.of_nat i) mod 16777216) (seq 0 (length news)).
+Proof.
+  induction news as [|b r IH]; intros next Hn Hall; [reflexivity|].
+  inversion Hall as [|? ? Hb Hr]; subst.
+  cbn [ul_counts length seq map]. unfold ul_count_for at 1 2.
+  rewrite IH by (try apply ul_next_lt; assumption).
+  f_equal; [lia|].
+  rewrite <- seq_shift, map_map. apply map_ext. intro i.
+  unfold ul_next. change COUNT_MOD with 16777216. lia.
+Qed.
+
+(* the i-th message since the last new-context message (which is message 1) carries COUNT i-1 mod 2^24 *)
+Theorem ul_counts_since_reset : forall (pre rest:list bool) next,
+  Forall (fun b => b = false) rest ->
+  ul_counts next (pre ++ true :: rest) =
+  ul_counts next pre ++ map (fun i => N.of_nat i mod 16777216) (seq 0 (S (length rest))).
+Proof.
+  induction pre as [|b pre IH]; intros rest next Hall.
+  - cbn [app ul_counts ul_count_for]. rewrite ul_counts_run by (try apply ul_next_lt; assumption).
+    cbn [seq map]. f_equal.
+    rewrite <- seq_shift, map_map. apply map_ext. intro i.
+    unfold ul_next. change COUNT_MOD with 16777216. lia.
+  - cbn [app ul_counts]. rewrite IH by assumption. reflexivity.
+Qed.
+
 Section Crypto.
 Variable enc : N -> list N -> N -> N -> N -> list N -> option (list N).
 Variable mac : N -> list N -> N -> N -> N -> list N -> option (list N).
@@ -103,11 +146,6 @@ Qed.
 Lemma nas_encode_no_context st plain hdr newctx epd :
   nas_encode enc mac st plain hdr false newctx epd = (st, Ok plain).
 Proof. reflexivity. Qed.
-
-Lemma ul_next_lt c : ul_next c < 16777216.
-Proof. unfold ul_next. change COUNT_MOD with 16777216. lia. Qed.
-Lemma ul_count_for_lt c n : c < 16777216 -> ul_count_for c n < 16777216.
-Proof. intro H. unfold ul_count_for. destruct n; lia. Qed.
 
 (* ---- histories.  ops = (plain, hdr, newctx), every message sent with a security context *)
 Definition ul_ops := list (list N * N * bool).
@@ -201,34 +239,6 @@ Proof.
   cbn [fst] in IH |- *. rewrite IH. reflexivity.
 Qed.
 
-(* no new context in between: message i (from 0) carries next + i mod 2^24 *)
-Lemma ul_counts_run : forall (news:list bool) next,
-  next < 16777216 -> Forall (fun b => b = false) news ->
-  ul_counts next news = map (fun i => (next + N.of_nat i) mod 16777216) (seq 0 (length news)).
-Proof.
-  induction news as [|b r IH]; intros next Hn Hall; [reflexivity|].
-  inversion Hall as [|? ? Hb Hr]; subst.
-  cbn [ul_counts length seq map]. unfold ul_count_for at 1 2.
-  rewrite IH by (try apply ul_next_lt; assumption).
-  f_equal; [lia|].
-  rewrite <- seq_shift, map_map. apply map_ext. intro i.
-  unfold ul_next. change COUNT_MOD with 16777216. lia.
-Qed.
-
-(* the i-th message since the last new-context message (which is message 1) carries COUNT i-1 mod 2^24 *)
-Theorem ul_counts_since_reset : forall (pre rest:list bool) next,
-  Forall (fun b => b = false) rest ->
-  ul_counts next (pre ++ true :: rest) =
-  ul_counts next pre ++ map (fun i => N.of_nat i mod 16777216) (seq 0 (S (length rest))).
-Proof.
-  induction pre as [|b pre IH]; intros rest next Hall.
-  - cbn [app ul_counts ul_count_for]. rewrite ul_counts_run by (try apply ul_next_lt; assumption).
-    cbn [seq map]. f_equal.
-    rewrite <- seq_shift, map_map. apply map_ext. intro i.
-    unfold ul_next. change COUNT_MOD with 16777216. lia.
-  - cbn [app ul_counts]. rewrite IH by assumption. reflexivity.
-Qed.
-
 (* ===================================================================== the reference receiver accepts the history *)
 Section Receiver.
 Variable ctx : sec_ctx.
@@ -238,12 +248,6 @@ Hypothesis mac_len4 : forall c d m t, mac (c_ia ctx) (c_kint ctx) c 1 d m = Some
 (* C07: c07_cipher_involutive (same KEY, COUNT, BEARER, DIRECTION: applying the cipher twice restores the input) *)
 Hypothesis enc_inv : forall c d p q, okp p ->
   enc (c_ea ctx) (c_kenc ctx) c 1 d p = Some q -> enc (c_ea ctx) (c_kenc ctx) c 1 d q = Some p.
-
-Lemma estimate_in_sync c : c < 16777216 -> estimate c (c mod 256) = c.
-Proof.
-  intro H. unfold estimate. change COUNT_MOD with 16777216.
-  destruct (N.ltb_spec (c mod 256) (c mod 256)); lia.
-Qed.
 
 (* one message: what [protect] produced with COUNT c in direction dir is accepted by a receiver whose stored
    COUNT is c, which returns the plain message and stores c + 1 *)
@@ -322,9 +326,6 @@ Definition plain_msg (p:list N) : Prop := nth_error p 1 = Some 0.
 Definition dl_op_ok (o:list N * N * N) : Prop :=
   let '(p, h, d) := o in h <= 4 /\ 1 <= d /\ d <= 255 /\ plain_msg p /\ okp p.
 
-Lemma dl_count_lt last h d : dl_count last h d < 16777216.
-Proof. unfold dl_count. change COUNT_MOD with 16777216. destruct (hdr_newctx h); lia. Qed.
-
 (* one message *)
 Lemma get_nas_pdu_recovers st plain hdr d c pkt :
   wf st -> ia st <> 0 -> dl_op_ok (plain, hdr, d) ->
@@ -340,7 +341,7 @@ Proof.
   - injection Hs as <- <-. unfold get_nas_pdu. rewrite Hpm. unfold nas_decode.
     change (0 =? SecurityHeaderTypePlainNas) with true. cbv [with_dl]. reflexivity.
   - injection Hs as Hc Hp. unfold protect in Hp. cbn [c_ea c_ia c_kenc c_kint] in Hp.
-    change BEARER_3GPP with 1 in Hp. change DOWNLINK with 1 in Hp.
+    change BEARER_3GPP with 1 in Hp. change DOWNLINK with 1 in Hp. rewrite Hc in Hp.
     assert (Hclt : c < 16777216) by (subst c; apply dl_count_lt).
     (* the estimate the code forms equals the sender's COUNT *)
     assert (Hest : cnt_estimate (if newctx_type hdr then cnt_set dd 0 0 else dd) (c mod 256) = c).
@@ -381,10 +382,10 @@ Proof.
     destruct (ciphered_type hdr) eqn:Hcy.
     + destruct (enc e k1 c 1 1 plain) as [body|] eqn:He; [|discriminate].
       destruct (mac i k2 c 1 1 (c mod 256 :: body)) as [m|] eqn:Hm; [|discriminate].
-      injection Hp as <-. cbn [nth_error]. rewrite (Hmid body m Hm), Hcy.
+      injection Hp as <-. cbn [nth_error]. rewrite (Hmid body m Hm).
       rewrite (enc_inv _ _ _ _ Hokp He). reflexivity.
     + destruct (mac i k2 c 1 1 (c mod 256 :: plain)) as [m|] eqn:Hm; [|discriminate].
-      injection Hp as <-. cbn [nth_error]. rewrite (Hmid plain m Hm), Hcy. reflexivity.
+      injection Hp as <-. cbn [nth_error]. rewrite (Hmid plain m Hm). reflexivity.
 Qed.
 
 (* the whole history: after each message the UE's DLCount equals the COUNT the AMF used for it, and the octets
@@ -426,3 +427,54 @@ Lemma newctx_resets_estimate dd s : dd < 16777216 -> s < 256 -> cnt_estimate (cn
 Proof. apply cnt_estimate_after_reset. Qed.
 End Downlink.
 End Crypto.
+
+(* ---- layout of a protected message (TS 24.501 9.1): with a 4-octet MAC the sequence-number octet is octet 7
+   and equals COUNT mod 256; the MAC is the algorithm's output over sequence number || message part *)
+Lemma protect_layout enc mac ctx dir c hdr plain pkt :
+  (forall m t, mac (c_ia ctx) (c_kint ctx) c 1 dir m = Some t -> length t = 4%nat) ->
+  protect enc mac ctx dir c hdr plain = Some pkt ->
+  exists m body,
+    pkt = EPD_5GMM :: hdr :: m ++ c mod 256 :: body /\ length m = 4%nat /\
+    nth_error pkt 6 = Some (c mod 256) /\
+    mac (c_ia ctx) (c_kint ctx) c BEARER_3GPP dir (c mod 256 :: body) = Some m /\
+    (if hdr_ciphered hdr then enc (c_ea ctx) (c_kenc ctx) c BEARER_3GPP dir plain = Some body else body = plain).
+Proof.
+  intros Hlen Hp. unfold protect in Hp.
+  destruct (hdr_ciphered hdr).
+  - destruct (enc (c_ea ctx) (c_kenc ctx) c BEARER_3GPP dir plain) as [body|] eqn:He; [|discriminate].
+    destruct (mac (c_ia ctx) (c_kint ctx) c BEARER_3GPP dir (c mod 256 :: body)) as [m|] eqn:Hm; [|discriminate].
+    injection Hp as <-. exists m, body. pose proof (Hlen _ _ Hm) as Hl.
+    destruct m as [|m1 [|m2 [|m3 [|m4 [|? ?]]]]]; try discriminate Hl.
+    repeat split; try reflexivity; assumption.
+  - destruct (mac (c_ia ctx) (c_kint ctx) c BEARER_3GPP dir (c mod 256 :: plain)) as [m|] eqn:Hm; [|discriminate].
+    injection Hp as <-. exists m, plain. pose proof (Hlen _ _ Hm) as Hl.
+    destruct m as [|m1 [|m2 [|m3 [|m4 [|? ?]]]]]; try discriminate Hl.
+    repeat split; try reflexivity; assumption.
+Qed.
+
+(* taking a new context into use: the message carries COUNT 0 and both counters restart *)
+Lemma nas_encode_new_context enc mac st plain hdr :
+  wf st ->
+  let r := nas_encode enc mac st plain hdr true true Epd5GSMobilityManagementMessage in
+  snd r = res_of (protect enc mac (ctx_of st) UPLINK 0 hdr plain) /\
+  dl (fst r) = 0 /\
+  ul (fst r) = match protect enc mac (ctx_of st) UPLINK 0 hdr plain with Some _ => 1 | None => 0 end.
+Proof.
+  intro Hwf. cbv zeta. rewrite nas_encode_is_protect by assumption. cbv zeta.
+  change (ul_count_for (ul st) true) with 0.
+  destruct (protect enc mac (ctx_of st) UPLINK 0 hdr plain); cbn [fst snd ul dl res_of]; repeat split; reflexivity.
+Qed.
+
+(* ---- the hypotheses on the two algorithms are satisfiable: a toy cipher / MAC that depend on every input *)
+Definition toy_enc (a:N) (k:list N) (c b d:N) (p:list N) : option (list N) :=
+  Some (map (fun x => N.lxor x (N.land (a + c + 2 * d + b + N.of_nat (length k)) 255)) p).
+Definition toy_mac (a:N) (k:list N) (c b d:N) (m:list N) : option (list N) :=
+  Some [c mod 256; d; N.of_nat (length m) mod 256; a].
+Lemma toy_mac_len4 a k c b d m t : toy_mac a k c b d m = Some t -> length t = 4%nat.
+Proof. unfold toy_mac. intro H. injection H as <-. reflexivity. Qed.
+Lemma toy_enc_inv a k c b d p q : toy_enc a k c b d p = Some q -> toy_enc a k c b d q = Some p.
+Proof.
+  unfold toy_enc. intro H. injection H as <-. f_equal. rewrite map_map.
+  rewrite <- (map_id p) at 2. apply map_ext. intro x.
+  rewrite N.lxor_assoc, N.lxor_nilpotent, N.lxor_0_r. reflexivity.
+Qed.
